@@ -2,7 +2,7 @@ import ArgoVerif.Model.Future
 import Driver.Eventual
 /- `driver future`: validates a projected trace against Model.Future.
      first line:  init <num_compartments> <has callback 0|1> <id>:<u|t|e> ...
-     events: call a op v | ret a op rc ready | acq a old | ldCnt a v | cb a v0 v1 .. | stCnt a v | enq a | wake a n
+     events: call a op v | ret a op rc ready | acq a old | ldCnt a v | cbBegin a | cb a v0 v1 .. | stCnt a v | enq a | wake a n
              | rel a counter n empty | tload a v | obsCnt v | obsLock v | arr v0 v1 ..
      set values / array contents are hex; counters decimal. -/
 namespace Driver.Future
@@ -21,7 +21,8 @@ def parseRc : String → Option Rc
   | "ok" => some .ok | "ERR_FUTURE" => some .errFuture | _ => none
 
 def parseOp : String → Option Op
-  | "set" => some .set | "wait" => some .wait | "test" => some .test | "reset" => some .reset | _ => none
+  | "set" => some .set | "wait" => some .wait | "test" => some .test | "reset" => some .reset | "free" => some .free
+  | _ => none
 
 def parseKinds (ws : List String) : List (Nat × Kind) :=
   ws.filterMap fun w =>
@@ -38,6 +39,7 @@ def parseEv (ws : List String) : Option (Ev × Nat) :=
       let a ← a.toNat?; let op ← parseOp op; let rc ← parseRc rc; let r ← b r; pure (.ret a op rc r, a)
   | ["acq", a, o] => do let a ← a.toNat?; let o ← b o; pure (.acq a o, a)
   | ["ldCnt", a, v] => do let a ← a.toNat?; let v ← v.toNat?; pure (.ldCnt a v, a)
+  | ["cbBegin", a] => do let a ← a.toNat?; pure (.cbBegin a, a)
   | "cb" :: a :: vs => do let a ← a.toNat?; let vs ← vs.mapM hex; pure (.cb a vs, a)
   | ["stCnt", a, v] => do let a ← a.toNat?; let v ← v.toNat?; pure (.stCnt a v, a)
   | ["enq", a] => do let a ← a.toNat?; pure (.enq a, a)
